@@ -38,6 +38,17 @@ META["C13"] = {
     "design_ref": "DESIGN.md §7 C13",
 }
 
+META["C01"] = {
+    "text": "Bounded symbolic model checking with an ORDER ORACLE: the real ConversionSupplySet.Payouts and the real SnapshotPayouts (SQL included) are executed twice from the same symbolic pre-state, once in canonical order and once with any permutation of a map iteration / any legal result of an unstable sort (solver-chosen), and the solver shows equal balances, payouts and history rows (address -> tx_index) for all balances including exact ties. Found D3 (staking tie order), repaired by fix 703a3f1.",
+    "note": "deviation budget: one permuted map range or unstable sort per run; 2 requests/2 stakers quick, 3 thorough; clock: time.Now() is a fresh symbolic value and reaches no ledger table (monitor in other harnesses); multiFetch goroutines and grader-internal ties not encoded (not-applicable sub-claims, DESIGN §9)",
+    "design_ref": "DESIGN.md §7 C01",
+}
+META["C14"] = {
+    "text": "Bounded symbolic model checking of the real SnapshotPayouts, SnapshotCurrent, SelectSnapshotBalances (the two-table MIN join, parsed from the repo's SQL), Convert, ConversionSupplySet, InsertStakingCoinbase and AddToBalance from symbolic snapshot tables: stake = sum of floor(min(past,cur)*rate/rateUSD) over non-PEG assets (zero rates skipped from 2.0.2), payouts proportional with dust < n, total <= 4500 PEG x 144 and == it when stake exceeds it, full payout below the cap, nothing for addresses absent from either snapshot, only PEG touched, one history row per payee with the credited amount.",
+    "note": "2 addresses in both snapshots + 1 only-new + 1 only-old with 1 asset (2 thorough); 3 stakers for allocation; heights: first snapshot >= 2.0 and >= 2.0.2 (heights are formatted into the mock txid, hence concrete); the when-to-snapshot glue of SyncBlock is covered with C15/C02 glue",
+    "design_ref": "DESIGN.md §7 C14",
+}
+
 NOT_APPLICABLE = {}
 for i in range(1, 21):
     p = "C%02d" % i
